@@ -765,6 +765,13 @@ def run(ctx):
             if st["k"] == "assign" and st["rv"]["k"] == "aggregate" and st["rv"]["kind"].get("def") == "model::voice::question::Question":
                 v = st["rv"]["kind"]["variant"]
                 variants[v] = show(eb.at(bb, i).op(st["rv"]["ops"][0]))
+        # the tuple-variant constructor used as a function: RegexWrap::parse(patterns).map(Question::Regex)
+        for bb, t in qp.calls():
+            c = t["callee"]
+            if c["k"] == "fndef" and cm.callee_name(c).endswith("Result::<T, E>::map") and len(t["args"]) == 2:
+                f_ = t["args"][1]
+                if f_.get("k") == "const" and str(f_.get("fn", "")).startswith("model::voice::question::Question::"):
+                    variants.setdefault(f_["fn"].rsplit("::", 1)[-1], show(eb.at(bb).op(t["args"][0])))
         if "AllQuestion" in variants.get("AllQustion", "") and "RegexWrap::parse" in variants.get("Regex", ""):
             ctx.ok("C04-R6", "each variant wraps the matcher that was built for it", qp.loc())
         else:
